@@ -4,6 +4,7 @@ import Gomjml.Core.LayoutStd
 import Gomjml.Core.CharData
 import Gomjml.Core.LayoutLeaves
 import Gomjml.Core.MixedProofs
+import Gomjml.Core.TextFlow
 /-! # C04 — content fidelity: author content appears once, in order, as authored (property theorems only)
 
 Layout part, on the skeleton model (`t` = one content slot; the combined machine rejects `t` inside an Outlook
@@ -115,5 +116,23 @@ example : tidy [.text [71, 111, 32], .node (.mk [98] [([99, 108, 97, 115, 115], 
     wfParts false [.text [71, 111, 32], .node (.mk [98] [([99, 108, 97, 115, 115], [120, 32, 121])] [.text [110, 111, 119]]), .text [33]] = true ∧
     depthParts [.text [71, 111, 32], .node (.mk [98] [([99, 108, 97, 115, 115], [120, 32, 121])] [.text [110, 111, 119]]), .text [33]] ≤ 1 := by
   decide
+
+/-! ### as authored: the text of mj-text on its way to the inner HTML (`buildRawInnerHTML`) -/
+
+/-- **mj-text keeps the author's text**: collapsing white space and trimming the ends touch nothing but blanks, tabs and
+    line breaks — every other byte comes out, once, in order (texts without no-break spaces; each of those is written as
+    `&#xA0;`) -/
+theorem C04_text_keeps_ink (s : List Gomjml.Amp.B) (h : ∀ b ∈ s, b ≠ 0xC2) :
+    Gomjml.TextFlow.ink (Gomjml.TextFlow.textInner s) = Gomjml.TextFlow.ink s := Gomjml.TextFlow.textInner_ink s h
+
+/-- … what is left of the white space are single blanks (no tab, no line break, never two blanks in a row), and doing it
+    again changes nothing -/
+theorem C04_text_whitespace (s : List Gomjml.Amp.B) :
+    Gomjml.TextFlow.tidyWs false (Gomjml.TextFlow.collapse false s) = true ∧
+    Gomjml.TextFlow.collapse false (Gomjml.TextFlow.collapse false s) = Gomjml.TextFlow.collapse false s :=
+  ⟨Gomjml.TextFlow.collapse_tidy s false, Gomjml.TextFlow.collapse_idem s false⟩
+
+/-- non-vacuity: `"  a \n\t b<br/>  "` becomes `"a b<br/>"` -/
+example : Gomjml.TextFlow.textInner [32, 32, 97, 32, 10, 9, 32, 98, 60, 98, 114, 47, 62, 32, 32] = [97, 32, 98, 60, 98, 114, 47, 62] := by decide
 
 end Gomjml.Props.C04
